@@ -2,6 +2,7 @@ package main
 
 import (
 	"fmt"
+	"os"
 	"path/filepath"
 	"strings"
 
@@ -104,7 +105,7 @@ func failureProblems(res *run.Result, exp *ref.Result, f *ref.Task, failProc str
 func c09(args []string) {
 	c := chk.New("C09", "fault_enumeration", args)
 	c.Build(false)
-	c.Rule("generated graphs x every chosen task as the failing one x failure kind {exit non-zero before/mid/after writing, killed by SIGKILL / SIGSEGV, the task's shell killed by SIGKILL / SIGTERM after writing, declared output not produced, output written under another name; Go-function variants; task cannot be formed: empty parameter value, missing tag, invalid output path (space, colon, empty)} while sibling tasks are running; oracle = exit status != 0, no completion report, no final path of the failing task exists, no start event of any transitive dependant. distinct_nontrivial = distinct (graph shape, failing task, failure kind) in which the failing command really ran (or, for unformable tasks, the workflow was started) and >= 1 sibling task executed")
+	c.Rule("generated graphs x every chosen task as the failing one x failure kind {exit non-zero before/mid/after writing, killed by SIGKILL / SIGSEGV, the task's shell killed by SIGKILL / SIGTERM after writing, declared output not produced, output written under another name; Go-function variants; task cannot be formed: empty parameter value, missing tag, invalid output path (space, colon, empty)} while sibling tasks are running; oracle = exit status != 0, no completion report, no final path of the failing task exists, no start event of any transitive dependant; plus output paths that cannot be finalized: an absolute output area on another file system (symlink to /dev/shm), where the commands succeed but the rename out of the temp directory fails - the program must exit non-zero, must not report completion, and no downstream task may run. distinct_nontrivial = distinct (graph shape, failing task, failure kind) in which the failing command really ran (or, for unformable tasks, the workflow was started) and >= 1 sibling task executed")
 	c.Assume("siblings that were already running may finalize their own outputs (os.Exit does not wait) - legal", "orphaned sibling commands are killed by the runner after the workflow process has exited")
 	rng := c.Rand("c09")
 	type job struct {
@@ -300,7 +301,95 @@ func c09(args []string) {
 			c.Sample(map[string]interface{}{"graph": gen.Describe(j.s), "failing": who, "kind": j.mode, "exit": res.Exit, "sibling_tasks_started": siblings, "cfg": j.cfg})
 		}
 	})
+	c09xdev(c)
 	c.Finish()
+}
+
+// c09xdev: output paths the library cannot finalize - an absolute output area on another file system, where
+// the rename from the task's temp directory fails (EXDEV). The commands succeed; the task nevertheless has not
+// produced its declared outputs, so the program must fail and nothing downstream may run.
+func c09xdev(c *chk.Ctx) {
+	if st, err := os.Stat("/dev/shm"); err != nil || !st.IsDir() {
+		c.Count("cross_device_cases_skipped_no_dev_shm", 1)
+		return
+	}
+	type xj struct {
+		kind string
+		gof  bool
+	}
+	var jobs []xj
+	for _, k := range []string{"chain", "twoout", "diamond"} {
+		for _, g := range []bool{false, true} {
+			for r := 0; r < c.Pick(1, 3); r++ {
+				jobs = append(jobs, xj{k, g})
+			}
+		}
+	}
+	run.Parallel(len(jobs), func(i int) {
+		j := jobs[i]
+		root := c.CaseDir()
+		defer c.Drop(root)
+		xd := "/dev/shm/verif-xdev9-" + filepath.Base(filepath.Dir(root)) + "-" + filepath.Base(root)
+		os.MkdirAll(xd, 0777)
+		defer os.RemoveAll(xd)
+		os.Symlink(xd, filepath.Join(root, "abs"))
+		s := gen.Topo(j.kind, gen.ShapeAbs, j.gof, root, 2)
+		exp := evalRef(s, nil)
+		if exp.Err != "" {
+			c.Broken("reference cannot evaluate " + s.Name + ": " + exp.Err)
+		}
+		res := execSpec(c, root, s, Cfg{Buf: 128, Procs: 4}, nil, false, 0)
+		desc := map[string]interface{}{"spec": s, "kind": "output-area-on-another-file-system", "topology": j.kind, "gofunc": j.gof, "exit": res.Exit, "output_tail": tail(res.Output(), 600)}
+		if res.Hang != "" {
+			if strings.HasPrefix(res.Hang, "deadlock") {
+				c.Violation("hang-after-failure", "outputs that cannot be finalized (other file system): the program did not terminate: "+res.Hang, desc)
+			} else {
+				c.Inconclusive(res.Hang)
+			}
+			return
+		}
+		ti := mon.Index(res.Trace)
+		// first-level tasks: those whose inputs are all source files; their outputs cannot be finalized
+		produced := map[string]bool{}
+		for _, t := range exp.Tasks {
+			for _, o := range t.Outs {
+				produced[o] = true
+			}
+		}
+		var ps []mon.Problem
+		nfirst := 0
+		for _, t := range exp.Tasks {
+			first := true
+			for _, in := range t.In {
+				if produced[in.Path] {
+					first = false
+				}
+			}
+			if first {
+				nfirst++
+				continue
+			}
+			if len(ti.Starts[t.Key]) > 0 {
+				ps = append(ps, mon.Problem{Sig: "dependant-of-failed-task-executed", Msg: "task " + t.Key + " was executed although no upstream output could be finalized"})
+			}
+		}
+		if res.Exit == 0 {
+			ps = append(ps, mon.Problem{Sig: "failure-exit-zero", Msg: "no output could be moved to its declared path, yet the workflow program exited with status 0"})
+		}
+		if res.Returned {
+			ps = append(ps, mon.Problem{Sig: "failure-reported-completion", Msg: "no output could be moved to its declared path, yet Run returned"})
+		}
+		if len(ps) > 0 {
+			for _, sig := range sigSet(ps) {
+				desc["problems"] = mon.Summarize(ps, 10)
+				c.Violation(sig+":output-path-unusable", fmt.Sprintf("%s, outputs on another file system:\n  %s", j.kind, strings.Join(mon.Summarize(ps, 4), "\n  ")), desc)
+			}
+			return
+		}
+		c.Count("failure_cases_held", 1)
+		c.Count("kind_output-on-another-file-system", 1)
+		c.Nontrivial(fmt.Sprintf("xdev|%s|%v", j.kind, j.gof))
+	})
 }
 
 func classOf(mode string) string {
